@@ -427,6 +427,12 @@ SITES["C07"] += [
                 "(nbad := np.sum(pred_m & ~rate_m))": ("nRatedUnscored", I), "(nbad := np.sum(rate_m & ~pred_m))": ("nScoredUnrated", I)}),
 ]
 
+SITES["C11"] += [
+    dict(file="random.py", cls=None, fn="random_generator", mode="branch", select="seed is None", lean="randomGeneratorBranch",
+         atoms={"seed": ("seed", O), "_global_rng": ("globalRng", O)}),
+    dict(file="random.py", cls=None, fn="derivable_rng", mode="branch", select="spec == 'user'", lean="derivableSpecBranch",
+         atoms={"spec == 'user'": ("isUser", B), "isinstance(spec, tuple)": ("isTuple", B)}),
+]
 SITES["C11"] = SITES["C11"] + SITES["C05"]          # the samplers' fall-back paths must hand the generator on (C11) as well as `test_only` (C05)
 
 def generate(pid, src_root):
